@@ -19,7 +19,7 @@ def fireSeq {α} (st : State α) (op : Op α) : Bool :=
 def nextSeq {α} (B : Nat) (hist : List (Op α)) (st : State α) (op : Op α) : State α :=
   { st with tlb := st.tlb + op.chunk.length, pending := pendingSeq st op,
             prior := prune B (total (hist ++ [op])) (withStarts 0 (hist ++ [op])),
-            doneFired := st.doneFired || fireSeq st op }
+            queue := [], doneFired := st.doneFired || fireSeq st op }
 
 theorem intake_facts_vis {α} (S : List α) (B L : Nat) (hist : List (Op α)) (st : State α) (op : Op α)
     (hinv : Inv S B L hist st)
@@ -267,8 +267,9 @@ theorem step_seq {α} (S : List α) (B L : Nat) (hist : List (Op α)) (st : Stat
     rw [this]
     cases keyNext κ (total hist) (openAfter κ hist) op <;> simp
   have hstep : step st op = (nextSeq B hist st op, .ok (batchSeq st op) (fireSeq st op)) := by
-    unfold step
-    simp only [hinv.alive, Bool.false_eq_true, if_false]
+    unfold step call
+    simp only [hinv.alive, hinv.queue, List.nil_append, List.isEmpty_nil, Bool.and_true,
+      Bool.false_eq_true, if_false]
     rw [feedAll_eq, removeAll_pending]
     have hi := intakeAll_seq (prior1Of st op) ((keptOf st op).filterMap (feedMore st.tlb op.chunk))
       (skipOf st op) op.reqs hnd
@@ -288,7 +289,7 @@ theorem step_seq {α} (S : List α) (B L : Nat) (hist : List (Op α)) (st : Stat
     simp only [nextSeq, pendingSeq, batchSeq, fireSeq, takenSeq, keptOf, skipOf, prior1Of, hinv.alive]
   refine ⟨hstep, ?_, ?_, hbatch, ?_⟩
   · rw [hstep]
-    refine ⟨hinv.alive, ?_, hinv.buf, rfl, ?_, hnd, ?_, ?_⟩
+    refine ⟨hinv.alive, ?_, hinv.buf, rfl, ?_, hnd, ?_, ?_, rfl⟩
     · simp [nextSeq, hT, total_append, total_single]
     · intro c' hc'
       simp only [total_append, total_single, allReqs_append]
